@@ -38,6 +38,7 @@ const (
 	c17Cur     = "cur"
 	c17All     = "all"
 	c17Gen     = "gengen" // compound ServerKeyStore generate (add + set current)
+	c17State_  = "setstate"
 )
 
 type c17Ring struct {
@@ -71,7 +72,7 @@ func (C17) Explore(x *kernel.Explorer, seed uint64) {
 			perProc = 3 + r.Intn(10)
 		}
 		plan := &kernel.Plan{Prop: "C17", Seed: kernel.Mix(seed, uint64(i)), Swarm: map[string]int64{
-			"procs": int64(nproc), "rings": int64(nrings)}}
+			"procs": int64(nproc), "rings": int64(nrings), "reuse": int64(r.Intn(2))}}
 		id := 0
 		for p := 0; p < nproc; p++ {
 			for j := 0; j < perProc; j++ {
@@ -80,10 +81,12 @@ func (C17) Explore(x *kernel.Explorer, seed uint64) {
 				switch v := r.Intn(100); {
 				case v < 30:
 					kind = c17Add
-				case v < 50:
+				case v < 48:
 					kind = c17SetCur
-				case v < 62:
+				case v < 58:
 					kind = c17Destroy
+				case v < 66:
+					kind = c17State_
 				case v < 78:
 					kind = c17Cur
 				case v < 92:
@@ -91,7 +94,7 @@ func (C17) Explore(x *kernel.Explorer, seed uint64) {
 				default:
 					kind = c17Add
 				}
-				op := kernel.Op{ID: id, Proc: p, Kind: kind, A: []int64{int64(r.Intn(nrings)), int64(r.Intn(6))}}
+				op := kernel.Op{ID: id, Proc: p, Kind: kind, A: []int64{int64(r.Intn(nrings)), int64(r.Intn(16))}}
 				if kind == c17Add {
 					op.B = [][]byte{[]byte(fmt.Sprintf("key-%02d-%s", id, strings.Repeat("k", 25)))}
 				}
@@ -191,6 +194,15 @@ var c17Model = porcupine.Model{
 			n := s.clone()
 			n.keys[i].dead = true
 			return true, n
+		case c17State_:
+			if !out.OK {
+				return true, s
+			}
+			i := find(in.Seq)
+			if i < 0 || s.keys[i].dead {
+				return false, s
+			}
+			return true, s // the state itself does not change what readers get
 		case c17Cur:
 			i := find(s.cur)
 			if out.OK {
@@ -269,6 +281,22 @@ func (C17) Run(t *testing.T, plan *kernel.Plan, keepLog bool) *kernel.Result {
 					return
 				}
 				var mySeqs = map[string][]int{} // ring -> seqnums this process added
+				// a process may keep using one key ring object for several
+				// operations (swarm knob "reuse") instead of reopening it
+				kept := map[string]v2api.MutableKeyRing{}
+				openRW := func(path string, op kernel.Op) (v2api.MutableKeyRing, error) {
+					if plan.Sw("reuse") == 1 && op.Arg(1, 0)%4 != 3 {
+						if r, ok := kept[path]; ok {
+							w.Probe("ring-object-reused")
+							return r, nil
+						}
+					}
+					r, e := h.V2.OpenKeyRingRW(path)
+					if e == nil {
+						kept[path] = r
+					}
+					return r, e
+				}
 				for _, op := range plan.Ops {
 					if op.Proc != proc {
 						continue
@@ -282,7 +310,7 @@ func (C17) Run(t *testing.T, plan *kernel.Plan, keepLog bool) *kernel.Result {
 						switch op.Kind {
 						case c17Add:
 							in = c17In{Kind: c17Add, Val: string(op.Buf(0))}
-							r, e := h.V2.OpenKeyRingRW(ring.path)
+							r, e := openRW(ring.path, op)
 							if e != nil {
 								return e
 							}
@@ -299,19 +327,23 @@ func (C17) Run(t *testing.T, plan *kernel.Plan, keepLog bool) *kernel.Result {
 							out.Seq = seq
 							mySeqs[ring.path] = append(mySeqs[ring.path], seq)
 							return nil
-						case c17SetCur, c17Destroy:
+						case c17SetCur, c17Destroy, c17State_:
 							// target: usually a key this process added, sometimes any small seqnum
 							seq := 1 + int(op.Arg(1, 0))%4
 							if ms := mySeqs[ring.path]; len(ms) > 0 && op.Arg(1, 0)%3 != 0 {
 								seq = ms[int(op.Arg(1, 0))%len(ms)]
 							}
 							in = c17In{Kind: op.Kind, Seq: seq}
-							r, e := h.V2.OpenKeyRingRW(ring.path)
+							r, e := openRW(ring.path, op)
 							if e != nil {
 								return e
 							}
 							if op.Kind == c17SetCur {
 								return r.SetCurrent(seq)
+							}
+							if op.Kind == c17State_ {
+								states := []v2api.KeyState{v2api.KeyActive, v2api.KeySuspended, v2api.KeyDeactivated, v2api.KeyCompromised}
+								return r.SetState(seq, states[int(op.Arg(1, 0)/4)%len(states)])
 							}
 							return r.DestroyKey(seq)
 						case c17Cur:
